@@ -314,4 +314,37 @@ def check (params lines : List String) : CaseResult := Id.run do
   let reacted := seen.n > 0 || seen.x.any (· > 0)
   return { r with nontrivial := reacted }
 
+/-- family c10noexc: boundary events WITHOUT an exception flow; params `host kinds script`. The plain statement of C10 for the
+normal flow: the task behind the host (`N`) is requested only by the host's own completion — never before the host (for a
+sub-process: its inner task) was answered, never twice. -/
+def checkNoExc (params lines : List String) : CaseResult := Id.run do
+  let host := params.headD "task"
+  let hostTask := if host == "sub" then "HI" else "H"
+  let mut r : CaseResult := {}
+  let mut answered := false
+  let mut nReq := 0
+  let mut nBefore := 0
+  let mut delivered := 0
+  for ln in lines do
+    match words ln with
+    | ["obs", "task", node, _, _] =>
+      if node == "N" then
+        nReq := nReq + 1
+        if !answered then nBefore := nBefore + 1
+      else if node != "P" && node != hostTask then r := { r with bad := s!"unexpected request {node}" :: r.bad }
+    | "op" :: "answer" :: node :: _ => if node == hostTask then answered := true
+    | "op" :: "deliver" :: _ => delivered := delivered + 1
+    | ["obs", "ret", "deliver", name, res] =>
+      if res != "returned" then
+        r := { r with specs := s!"event_delivery_blocked: delivery of {name} did not return within its deadline" :: r.specs }
+    | "obs" :: "panic" :: rest => r := { r with specs := ("panic: " ++ " ".intercalate rest) :: r.specs }
+    | ["obs", "noquiesce"] => r := { r with specs := "no_quiescence: the engine kept running (busy loop)" :: r.specs }
+    | "harness-error" :: rest => r := { r with bad := ("harness-error " ++ " ".intercalate rest) :: r.bad }
+    | _ => pure ()
+  if nBefore > 0 then
+    r := { r with specs := s!"normal_flow_without_answer: the task behind the host was requested {nBefore} time(s) although the host had not been answered (boundary events without an exception flow)" :: r.specs }
+  if nReq > 1 then
+    r := { r with specs := s!"normal_flow_twice: the task behind the host was requested {nReq} times for one activation of the host" :: r.specs }
+  return { r with nontrivial := delivered > 0 }
+
 end Bpmn.Driver.C10
